@@ -7,6 +7,8 @@ shared_w      two convolutions that share one weight tensor but differ in bias t
               request finds the weights in the compression cache and builds a stand-alone scale tensor
 transpose     TRANSPOSE on the NPU (OFM strides of the swapped shape), incl. permutations that move the channel axis
 resize_half   RESIZE_BILINEAR with half-pixel centres: tile padding, OFM stride multiplier, tile base offsets
+stripe_pad    cascades of SAME convolutions / pools with tall kernels (5, 7) whose stripes are only a few rows high, so that
+              stripes other than the first and the last still need part of the top / bottom padding (cmd.pad_top/pad_bottom)
 scalar        a quantised scalar constant (shape [], zero point and scale of its own) as second or first operand:
               `ifm2_scalar` is the dequantised value, quantised again with the IFM2 quantisation by the register generator
 clamp         fused / stand-alone RELU-family activations behind operators that force the OFM zero point to 0 or override
@@ -14,7 +16,7 @@ clamp         fused / stand-alone RELU-family activations behind operators that 
 """
 import numpy as np
 
-FAMILIES = ["bcast_first", "const_first", "shared_w", "transpose", "resize_half", "clamp", "bcast_first", "shared_w", "clamp", "scalar"]
+FAMILIES = ["bcast_first", "const_first", "shared_w", "transpose", "resize_half", "clamp", "bcast_first", "shared_w", "clamp", "scalar", "stripe_pad"]
 
 
 def build(rng, idx, family=None):
@@ -26,6 +28,24 @@ def build(rng, idx, family=None):
         import netgen_ext
 
         return netgen_ext.build(rng, idx, "transpose_perm", None)
+    if fam == "stripe_pad":
+        # narrow -> wide -> narrow, so that `--optimise Size` cascades the chain into stripes of one or two rows
+        b = netgen.B(rng, f"casc_hl{idx}_stripe_pad", "int8")
+        h, w = rng.choice([33, 40, 48]), rng.choice([32, 64])
+        c0, mid = rng.choice([4, 8]), rng.choice([24, 32, 48])
+        x = b.input([1, h, w, c0])
+        k1, k2, k3 = rng.choice([3, 5]), rng.choice([5, 7]), rng.choice([3, 5])
+        b.net.desc.append(f"hl2npu family=stripe_pad in={[1, h, w, c0]} mid={mid} kernels={(k1, k2, k3)}")
+        cur = b.conv(x, mid, (k1, k1), (1, 1), (1, 1), "SAME")
+        kind = rng.choice(["dw", "conv", "pool"])
+        if kind == "dw":
+            cur = b.dwconv(cur, (k2, k2), (1, 1), (1, 1), "SAME")
+        elif kind == "conv":
+            cur = b.conv(cur, mid, (k2, k2), (1, 1), (1, 1), "SAME")
+        else:
+            cur = b.pool(cur, rng.choice(["AVERAGE_POOL_2D", "MAX_POOL_2D"]), (k2, k2), (1, 1), "SAME")
+        cur = b.conv(cur, c0, (k3, k3), (1, 1), (1, 1), "SAME")
+        return b.finish([cur])
     if fam == "resize_half":
         import ta_lib
 
